@@ -94,6 +94,7 @@ ASSUMPTIONS = [
 
 KNOWN_L0 = "l0-threshold"
 KNOWN_W32 = "loss-default-weight-float32"
+KNOWN_BAND = "cubic-root-absolute-band"
 
 
 def generate(ctx):
@@ -370,6 +371,12 @@ def correspond(ctx, model):
     default_cases(ctx, model, rng)
     if len(ctx.violations) >= 5:
         return
+    # 2h. scale stream: the same case times 2^k, parameters scaled by the exact homogeneity law of the family; RELATIVE comparison, no absolute floor
+    for fam in _families():
+        for _ in range(ctx.n(4, 30)):
+            scale_case(ctx, model, rng, fam)
+            if len(ctx.violations) >= 5:
+                return
     # 2g. non-finite ENTRIES (nan, +inf, -inf) through the entry-wise proxes: model at Float (IEEE) against the code, position by position
     #     (theorems C02_nonfinite_* state the same branch logic at the extended scalar XR)
     nonfinite_cases(ctx, model, rng)
@@ -579,6 +586,131 @@ def default_cases(ctx, model, rng):
             if p_impl.shape != np.asarray(p_model).shape or not common.allclose(p_impl, np.real(p_model), k=max(n, 1), rtol=1e-9):
                 ctx.disagree(f"prox.{fam}.defaults", _public(case), pc._js(p_impl), pc._js(p_model), oracle=None,
                              note="object built with its default arguments / prox with the default lam differs from the model at the recorded defaults")
+
+
+def _scaled(case, c):
+    """the case with input `c·v` (c = 2^k > 0, exact in binary floating point) and the parameters scaled so that the prox is EXACTLY `c` times the
+    prox of the original case (homogeneity law of the family); returns the scaled case or None"""
+    fam = case["fam"]
+    new = copy.deepcopy({k: v for k, v in case.items() if not k.startswith("_")})
+    P = new["params"]
+    mul = lambda xs: (np.asarray(xs, dtype=np.float64) * c).tolist()  # noqa: E731
+    new["v"] = mul(case["v"])
+    if "vim" in case:
+        new["vim"] = mul(case["vim"])
+    lam = float(case["lam"])
+
+    def inner_law(name):
+        # returns the factor of lam; scales the parameters of the functional in place
+        if name in ("l0", "l1", "l2", "l21", "l1l2", "nuclear"):
+            return c  # f(c x) = c f(x) (the coded l0 threshold scales the same way): prox_{c lam f}(c v) = c prox_{lam f}(v)
+        if name in ("hubersep", "hubernonsep"):
+            P["delta"] = float(P["delta"]) * c  # prox_{lam H_{c delta}}(c v) = c prox_{lam H_delta}(v)
+            return 1.0
+        if name == "l2ball":
+            P["radius"] = float(P["radius"]) * c
+            return 1.0
+        return 1.0  # sql2, nonneg, zero: prox(c v) = c prox(v)
+
+    if fam in ("setdist", "sqsetdist"):
+        sp = P["proj"]
+        for key in ("r", "c", "lo", "hi", "b"):
+            if key in sp:
+                sp[key] = float(sp[key]) * c
+        f = c if fam == "setdist" else 1.0
+    elif fam == "lossgen":
+        new["y"] = mul(case["y"])
+        f = inner_law(P["inner"])
+    elif fam in ("sql2loss", "sql2abs"):
+        new["y"] = mul(case["y"])
+        if "yim" in case:
+            new["yim"] = mul(case["yim"])
+        f = 1.0
+    elif fam == "sql2sqabs":
+        new["y"] = (np.asarray(case["y"], dtype=np.float64) * c * c).tolist()  # (y - |x|^2)^2 is 4-homogeneous jointly: lam' = lam / c^2
+        f = 1.0 / (c * c)
+    else:
+        f = inner_law(fam)
+    new["lam"] = lam * f
+    new["stream"] = "scale"
+    return new
+
+
+def _rel_agree(a, b, rtol, n, c):
+    """scale-equivariant comparison: the standard tolerance `rtol * n * (1 + max)` of the unscaled case, multiplied by the scale factor `c` -
+    no floor that is independent of the scale: max |a-b| <= rtol * n * (c + max(|a|, |b|))"""
+    a, b = np.asarray(a), np.asarray(b)
+    if a.shape != b.shape or not (np.all(np.isfinite(a)) and np.all(np.isfinite(b))):
+        return False
+    top = max(float(np.max(np.abs(a), initial=0.0)), float(np.max(np.abs(b), initial=0.0)))
+    return float(np.max(np.abs(a - b), initial=0.0)) <= rtol * max(n, 1) * (c + top)
+
+
+def scale_case(ctx, model, rng, fam):
+    """scale equivariance: `prox` at `(2^k v, parameters scaled by the homogeneity law)` must be `2^k` times `prox` at the original case - checked on the
+    implementation against itself AND against the model at the scaled case, relatively (no absolute floor), float64 with k in [-60, 60], float32 with a
+    range that keeps squares (fourth powers for the squared-modulus loss) representable.  Catches absolute thresholds hidden in helpers
+    (`no_nan_divide` must test for EXACT zero)."""
+    case = pg.structured(rng, fam) if rng.random() < 0.7 else pg.boundary(rng, fam)
+    f32 = case.get("dtype") == "float32"
+    kmax = (12 if fam == "sql2sqabs" else 28) if f32 else (40 if fam == "sql2sqabs" else 60)
+    k = int(rng.integers(-kmax, kmax + 1))
+    c = 2.0**k
+    sc = _scaled(case, c)
+    v, vs = pc.flat_value(case, "v"), pc.flat_value(sc, "v")
+    n = v.size
+    with warnings.catch_warnings():
+        warnings.simplefilter("ignore")
+        try:
+            p0 = np.asarray(pc.Impl(case).prox_flat(v))
+            ps = np.asarray(pc.Impl(sc).prox_flat(vs))
+        except common.Infra:
+            raise
+        except Exception as e:  # noqa: BLE001
+            if not _raised_in_scico(e):
+                raise
+            ctx.violation({"kind": "failing-input", "op": f"prox.{fam}.scale", "case": _public(sc),
+                           "failing": {"reason": "the implementation raised on a scaled input", "exception": f"{type(e).__name__}: {str(e)[:300]}"}}, True,
+                          f"prox.{fam}: implementation raised on a scaled input")
+            return
+        pm, margin = pc.model_eval(model, sc)
+    ctx.count(f"scale:{fam}:{'f32' if f32 else 'f64'}:k{'<-20' if k < -20 else ('>20' if k > 20 else '~0')}")
+    ctx.case(dict(_desc(sc), k=k), "scale-" + _key(sc))
+    if margin is not None and 0 < margin < 1e-6 * c:
+        ctx.count("discarded:near-tie")
+        return
+    rtol = 1e-4 if f32 else 1e-9
+    if fam == "nuclear":
+        rtol = max(rtol, 1e-8)
+
+    def orc(_c):
+        # the property at the scaled input: objective of the returned point against the model's point and against c * (prox of the original case)
+        with warnings.catch_warnings():
+            warnings.simplefilter("ignore")
+            impl = pc.Impl(sc)
+            Fi = impl.objective(np.asarray(ps, dtype=np.complex128 if sc.get("cplx") else np.float64), vs)
+            for tag, z in (("model", np.asarray(pm)), ("c*prox(original)", c * p0.astype(np.complex128 if sc.get("cplx") else np.float64))):
+                fz = impl.value(z)
+                if not math.isfinite(fz):
+                    continue
+                Fz = impl.objective(z, vs)
+                if Fz < Fi - 1e-7 * (abs(Fi) + c * c):
+                    return {"reason": f"scaled input (2^{k}): the point '{tag}' has a lower objective than the returned one", "v": pc._js(vs), "lam": sc["lam"],
+                            "params": sc["params"], "p": pc._js(ps), "objective(p)": Fi, "better_x": pc._js(z), "objective(x)": Fz}
+        return None
+
+    if not _rel_agree(ps, pm, rtol, n, c):
+        ctx.count(f"disagree:{fam}:scale")
+        ctx.disagree(f"prox.{fam}.scale.model", dict(_public(sc), k=k), pc._js(ps), pc._js(pm), oracle=orc,
+                     note=f"input and parameters scaled by 2^{k}: code and model differ relatively")
+        return
+    if not _rel_agree(ps, c * p0, 10 * rtol, n, c):
+        ctx.count(f"disagree:{fam}:scale")
+        # recorded finding: the absolute band |p| <= 1e-7 of `_dep_cubic_root` (model and code agree there - checked above -, the band itself is not
+        # scale-equivariant); classified only when an entry of THIS case is in the band and only for the equivariance comparison
+        kid = KNOWN_BAND if fam == "sql2sqabs" and "band" in (sc.get("_cubic", {}).get("branch") or []) else None
+        ctx.disagree(f"prox.{fam}.scale.equivariance", dict(_public(sc), k=k), pc._js(ps), pc._js(c * p0), oracle=orc, known_id=kid,
+                     note=f"prox(2^{k} v, scaled parameters) is not 2^{k} prox(v): an absolute threshold in the implementation")
 
 
 def _ieee_agree(a, b, rtol=1e-9):
@@ -1015,6 +1147,24 @@ def findings(ctx, model):
     if common.b2fs(r["out"]) != [float(p[0])]:
         ctx.disagree("prox.l0.witness", {"v": [1.2], "lam": 1.0}, p.tolist(), common.b2fs(r["out"]))
     _w32_witness(ctx, model)
+    _band_witness(ctx, model)
+
+
+def _band_witness(ctx, model):
+    """cubic-root-absolute-band: y = 2^-52, v = 0, scale = 0.5, lam = 2^52 returns 0; 2^-26 sqrt(0.5) has a lower objective"""
+    c = json.loads((common.CORPUS_DIR / PROP / "cubic_root_absolute_band.json").read_text())["case"]
+    with warnings.catch_warnings():
+        warnings.simplefilter("ignore")
+        impl = pc.Impl(c)
+        v = pc.flat_value(c, "v")
+        p = np.asarray(impl.prox_flat(v), dtype=np.float64)
+        z = np.array([2.0**-26 * math.sqrt(0.5)])
+        Fp, Fz = impl.objective(p, v), impl.objective(z, v)
+    still = bool(Fz < Fp * (1 - 1e-3))
+    ctx.known_finding(KNOWN_BAND, still, f"prox={p.tolist()} objective={Fp:.3e} vs {Fz:.3e} at {z.tolist()}")
+    if still and not ctx.is_known(KNOWN_BAND):
+        ctx.violation({"kind": "failing-input", "case": c, "failing": {"p": p.tolist(), "objective(p)": Fp, "better_x": z.tolist(), "objective(x)": Fz}},
+                      True, "SquaredL2SquaredAbsLoss.prox: absolute band of the cubic root")
 
 
 def _w32_witness(ctx, model):
@@ -1036,7 +1186,7 @@ CLASS_FAMS = {
     "HuberNorm": ["hubersep", "hubernonsep"], "NuclearNorm": ["nuclear"], "NonNegativeIndicator": ["nonneg"], "L2BallIndicator": ["l2ball"],
     "SetDistance": ["setdist"], "SquaredSetDistance": ["sqsetdist"], "ZeroFunctional": ["zero"], "Loss": ["lossgen"], "SquaredL2Loss": ["sql2loss"],
     "SquaredL2AbsLoss": ["sql2abs"], "SquaredL2SquaredAbsLoss": ["sql2sqabs"], "_dep_cubic_root": ["sql2sqabs"], "_check_root": ["sql2sqabs"],
-    "_cbrt": ["sql2sqabs"], "solver": ["sql2loss"], "PoissonLoss": [], "Diagonal": ["sql2loss"], "ScaledIdentity": ["sql2loss"], "Identity": ["sql2loss", "sql2abs", "sql2sqabs", "lossgen"],
+    "_cbrt": ["sql2sqabs"], "no_nan_divide": ["l21", "sql2sqabs"], "solver": ["sql2loss"], "PoissonLoss": [], "Diagonal": ["sql2loss"], "ScaledIdentity": ["sql2loss"], "Identity": ["sql2loss", "sql2abs", "sql2sqabs", "lossgen"],
 }
 LOSS_CLASSES = {"Loss", "SquaredL2Loss", "SquaredL2AbsLoss", "SquaredL2SquaredAbsLoss", "PoissonLoss", "solver", "Diagonal", "ScaledIdentity", "Identity"}
 
@@ -1070,6 +1220,10 @@ def table_diff(model):
         if edis.get(k) != gdis.get(k):
             rows.append({"table": "dispatch", "row": list(k), "expected": edis.get(k), "source": gdis.get(k)})
             names.add(k[0])
+    eh, gh = [tuple(r) for r in exp.get("helpers", [])], [tuple(r) for r in t.get("helpers", [])]
+    for r in set(eh) ^ set(gh):
+        rows.append({"table": "helpers", "row": list(r), "side": "expected" if r in eh else "source"})
+        names.add(r[0])
     eb, gb = [tuple(r) for r in exp["bases"]], [tuple(r) for r in t["bases"]]
     for r in set(eb) ^ set(gb):
         rows.append({"table": "bases", "row": list(r), "side": "expected" if r in eb else "source"})
@@ -1097,6 +1251,11 @@ def targeted_panel(ctx, model, why):
         if fam in ATTR_FAMS and not any(fi for _, fi in sub.violations):
             for _ in range(12):
                 attr_update_case(sub, model, rng, fam)
+        if not any(fi for _, fi in sub.violations):
+            for _ in range(40):
+                scale_case(sub, model, rng, fam)
+                if any(fi for _, fi in sub.violations):
+                    break
     if not any(fi for _, fi in sub.violations):
         default_cases(sub, model, rng)
     if names & LOSS_CLASSES and not any(fi for _, fi in sub.violations):
